@@ -69,6 +69,21 @@ KeysByPartition(tokpid, act, keys) ==
         ELSE [err |-> FALSE, groups |-> [p \in hit |-> {r[1] : r \in {q \in R : q[2] = p}}]]
 
 (***************************************************************************)
+(* Snapshot queries of a PartitionRing (ring/partition_ring.go).           *)
+(*   st : function partition id -> "P" | "A" | "I" over the ids in the ring*)
+(***************************************************************************)
+IdsInState(st, s) == {p \in DOMAIN st : st[p] = s}
+
+(* ShuffleShardSize(size): the number of partitions ShuffleShard(size) would *)
+(* return - only ACTIVE partitions are ever selected.                        *)
+ShardSize(nActive, size) == IF size <= 0 \/ size > nActive THEN nActive ELSE size
+
+(* ActivePartitionBatchRing (DoBatchRing): one "instance" per active        *)
+(* partition, replication factor 1.                                          *)
+BatchInstancesCount(st) == Cardinality(IdsInState(st, "A"))
+BatchReplicationFactor == 1
+
+(***************************************************************************)
 (* Replication sets (ring/partition_instance_ring.go,                      *)
 (* ring/multi_partition_instance_ring.go).                                 *)
 (*   pids    : set of partition ids present in the partition ring          *)
